@@ -235,11 +235,16 @@ class sptensor:
         assert callable(function_handle), "function_handle must be callable"
 
         shape = parse_shape(shape)
-        if (nonzeros < 0) or (nonzeros >= prod(shape)):
+        saturated = False
+        if (nonzeros < 0) or (nonzeros > prod(shape)) or (prod(shape) == 0):
             assert False, (
                 "Requested number of nonzeros must be positive "
                 "and less than the total size"
             )
+        elif nonzeros == prod(shape):
+            # every cell is requested: no draw can do better than all subscripts
+            saturated = True
+            nonzeros = int(prod(shape))
         elif nonzeros < 1:
             nonzeros = int(np.ceil(prod(shape) * nonzeros))
         else:
@@ -248,6 +253,10 @@ class sptensor:
 
         # Keep iterating until we find enough unique nonzeros or we give up
         subs = np.empty((0, len(shape)), dtype=int)
+        if saturated:
+            subs = np.array(list(np.ndindex(*shape)), dtype=int).reshape(
+                (nonzeros, len(shape))
+            )
         pool = subs
         cnt = 0
         while (len(subs) < nonzeros) and (cnt < 10):
